@@ -3,7 +3,7 @@
 set -e
 cd "$(dirname "$0")"
 export CARGO_NET_OFFLINE=true
-(cd harness && cargo build --release --offline --bin rkh --bin sbx_service && (cargo build --release --offline || true))
+(cd harness && cargo build --release --offline --bin rkh --bin sbx_service --bin c14_dates && (cargo build --release --offline || true))
 (cd lean && lake build)
 # the rink CLI binary used by the C20 check (cold build ~1-2 min; the check rebuilds incrementally)
 (cd /repo && CARGO_TARGET_DIR=/verif/.cache/cli-target cargo build --offline -p rink)
